@@ -247,3 +247,180 @@ func TestTrace(t *testing.T) {
 		t.Fatal(err)
 	}
 }
+
+// Beh is one behaviour exported by SimMigrillian.tla.
+type Beh struct {
+	Cfg struct {
+		Src0, Growth, DestLen, DestInt, Batch, Fetchers, Submitters, Start, ForkAt int
+		Bad                                                                      []int
+		Cont, Forked                                                             bool
+		Mode                                                                     string
+	} `json:"cfg"`
+	Hist []struct {
+		Ev     string `json:"ev"`
+		Pass   int    `json:"pass"`
+		Calls  int    `json:"calls"`
+		Size   int    `json:"size"`
+		Code   string `json:"code"`
+		Start  int    `json:"start"`
+		End    int    `json:"end"`
+		N      int    `json:"n"`
+		Result string `json:"result"`
+	} `json:"hist"`
+	Dest     []int  `json:"dest"`
+	DestSize int    `json:"destSize"`
+	SrcSize  int    `json:"srcSize"`
+	Result   string `json:"result"`
+	Terminal bool   `json:"terminal"`
+}
+
+// schedule turns a behaviour into a scenario + counted fault script; clean = no cancellation, lost
+// mastership or fatal fault, so that the outcome is determined whatever the goroutine interleaving.
+func schedule(b Beh, idx int) (c Cfg, f Faults, restarts int, clean bool, covered bool) {
+	c = Cfg{Src0: b.Cfg.Src0, Growth: b.SrcSize - b.Cfg.Src0, Bad: append([]int{}, b.Cfg.Bad...), DestLen: b.Cfg.DestLen, DestInt: b.Cfg.DestInt,
+		Batch: b.Cfg.Batch, Fetchers: b.Cfg.Fetchers, Submitters: b.Cfg.Submitters, Chan: idx % 3, Cont: b.Cfg.Cont, Start: b.Cfg.Start,
+		Forked: b.Cfg.Forked, ForkAt: b.Cfg.ForkAt, IDFunc: []string{"cert", "index"}[idx%2], Mode: b.Cfg.Mode}
+	f.init()
+	f.Replay = true
+	f.RootAt, f.SizeAt = map[string]int{}, map[string]int{}
+	clean = !b.Cfg.Forked
+	h := b.Hist
+	covered = len(b.Dest) >= b.SrcSize && b.DestSize >= b.SrcSize
+	// a continuous run is ended by the operator once it has caught up: the driver does that itself
+	if n := len(h); b.Cfg.Cont && covered && n >= 2 && h[n-1].Ev == "Return" && h[n-2].Ev == "Cancel" {
+		h = h[:n-2]
+	}
+	for _, e := range h {
+		p := fmt.Sprint(e.Pass)
+		key := fmt.Sprintf("%d:%d", e.Pass, e.Start)
+		hook := fmt.Sprintf("%d:%d", e.Pass, e.Calls+1)
+		switch e.Ev {
+		case "GetRoot":
+			if e.Code != "OK" {
+				f.Root[p] = append(f.Root[p], "Unavailable")
+				clean = false
+			} else {
+				f.RootAt[p] = e.Size
+			}
+		case "STH":
+			if e.Code != "OK" {
+				f.STH[p] = append(f.STH[p], 500)
+				clean = false
+			} else {
+				f.SizeAt[p] = e.Size
+			}
+		case "Cons":
+			if e.Code != "OK" {
+				f.Cons[p] = append(f.Cons[p], 500)
+				clean = false
+			}
+		case "Fetch":
+			switch {
+			case e.Code != "OK":
+				f.Fetch[key] = append(f.Fetch[key], -1-idx%2)
+			case e.N < e.End-e.Start+1:
+				f.Fetch[key] = append(f.Fetch[key], e.N)
+			default:
+				f.Fetch[key] = append(f.Fetch[key], 0)
+			}
+		case "Add":
+			f.Add[key] = append(f.Add[key], e.Code)
+			if e.Code != "OK" && e.Code != "ResourceExhausted" {
+				clean = false
+			}
+		case "Grow":
+			f.Env[hook] = append(f.Env[hook], "grow")
+		case "Revoke":
+			f.Env[hook] = append(f.Env[hook], "revoke")
+			clean = false
+		case "Cancel":
+			f.Env[hook] = append(f.Env[hook], "cancel")
+			clean = false
+		case "Restart":
+			restarts++
+		}
+	}
+	return
+}
+
+// TestReplay drives the real Controller with the fault schedules of TLC-generated behaviours of
+// Migrillian.tla and compares what is determined by the schedule with the specification's outcome.
+func TestReplay(t *testing.T) {
+	path := os.Getenv("VERIF_BEHAVIOURS")
+	if path == "" {
+		t.Skip("VERIF_BEHAVIOURS not set")
+	}
+	behs, err := vh.LoadNDJSON[Beh](path)
+	if err != nil {
+		t.Fatal(err)
+	}
+	pool, err := NewPool(vh.Rand(20))
+	if err != nil {
+		t.Fatal(err)
+	}
+	rec, err := vh.NewRecorder("replay-traces.ndjson")
+	if err != nil {
+		t.Fatal(err)
+	}
+	rep := vh.NewReport("c20-replay", "behaviours of Migrillian.tla (TLC simulation: scenario + environment choices) replayed as counted fault schedules into the real Controller; monitors on every request; for schedules without cancellation / lost mastership / fatal faults the return class, the destination domain and the consumption of the whole schedule are compared with the specification's behaviour; non-trivial = distinct set of behaviour kinds")
+	nclean := 0
+	for i, b := range behs {
+		c, f, restarts, clean, covered := schedule(b, i)
+		sub := vh.NewReport("tmp", "")
+		var w *World
+		var res Result
+		synctest.Test(t, func(t *testing.T) {
+			w = NewWorld(pool, c, cloneFaults(f), rec, sub, i)
+			w.Seed = vh.Seed()
+			w.emit(map[string]any{"ev": "Reset", "cfg": c})
+			var err error
+			if res, err = w.Run(restarts); err != nil {
+				t.Fatal(err)
+			}
+		})
+		ctxt := map[string]any{"behaviour": b, "cfg": c, "faults": f, "restarts": restarts, "result": res}
+		for _, v := range sub.Violations {
+			rep.Violate(v.Fingerprint, v.What, ctxt)
+		}
+		if clean && len(sub.Violations) == 0 {
+			nclean++
+			want := b.Result
+			if c.Cont && covered {
+				want = "canceled" // ended by the driver after completion
+			}
+			if res.Ret != want {
+				rep.Violate(fmt.Sprintf("replay:return:want=%s:got=%s", want, res.Ret),
+					fmt.Sprintf("specification behaviour ends with %q, the Controller returned %q (%s)", want, res.Ret, res.Err), ctxt)
+			}
+			if covered || b.Result == "nil" {
+				if fmt.Sprint(res.Dest) != fmt.Sprint(b.Dest) {
+					rep.Violate("replay:destination-differs", fmt.Sprintf("destination holds %v, the specification's %v", res.Dest, b.Dest), ctxt)
+				}
+			}
+			left := 0
+			for _, l := range w.F.Add {
+				left += len(l)
+			}
+			for _, l := range w.F.Fetch {
+				left += len(l)
+			}
+			if left > 0 {
+				rep.Violate("replay:schedule-not-consumed", fmt.Sprintf("%d scripted get-entries / AddSequenced outcomes of the behaviour were never asked for: the Controller made other calls than the specification", left), ctxt)
+			}
+		}
+		key := ""
+		if clean {
+			key = kindsKey(w)
+		}
+		rep.Eval(key)
+		if i < 2 {
+			rep.Sample(map[string]any{"cfg": c, "faults": f})
+		}
+	}
+	rec.Close()
+	rep.Replayed = len(behs)
+	rep.Extra["clean"] = nclean
+	if err := rep.Write(); err != nil {
+		t.Fatal(err)
+	}
+}
